@@ -102,6 +102,16 @@ Proof. rewrite lwe_phase_spec. apply eqm32_w32. cbn [lwe_negate fst snd].
   replace (- snd c - - dot (fst c) key) with (- (snd c - dot (fst c) key)) by ring.
   apply eqm32_opp, eqm32_sym, phase_eqm. Qed.
 
+Lemma nth_zipw f : forall r s j, (j < length r)%nat -> length r = length s ->
+  nth j (zipw f r s) 0 = w32 (f (nth j r 0) (nth j s 0)).
+Proof. induction r as [|x r IH]; intros [|y s] j Hj Hl; cbn [length] in *; try lia.
+  unfold zipw. cbn [combine map fst snd]. fold (zipw f r s). destruct j as [|j]; [reflexivity|].
+  cbn [nth]. apply IH; lia. Qed.
+Lemma zipw_length f r s : length r = length s -> length (zipw f r s) = length r.
+Proof. intro H. unfold zipw. rewrite map_length, combine_length. lia. Qed.
+
+
+
 (* ---- the block structure of the assembly equals the plain loop and stays in range, every n ---- *)
 Lemma combine_app_eq {A B} (a1 a2 : list A) (b1 b2 : list B) : length a1 = length b1 ->
   combine (a1 ++ a2) (b1 ++ b2) = combine a1 b1 ++ combine a2 b2.
